@@ -231,6 +231,50 @@ theorem chunk_offsets_follow_counterexample : ¬ ChunkOffsetsFollow false := by
     unfold tfhdBaseAt
     decide +kernel
 
+/-! ### two more layouts the parser accepts on which the modelled code breaks the tree -/
+
+/-- `mdat "AAAA"` followed by a LAST atom `moov(udta(meta(ilst)))` written with size field 0
+("extends to the end of the file", ISO 14496-12 §4.2) — 48 bytes -/
+def size0Moov : Bytes :=
+  [0x00, 0x00, 0x00, 0x0c, 0x6d, 0x64, 0x61, 0x74, 0x41, 0x41, 0x41, 0x41, 0x00, 0x00, 0x00, 0x00,
+   0x6d, 0x6f, 0x6f, 0x76, 0x00, 0x00, 0x00, 0x1c, 0x75, 0x64, 0x74, 0x61, 0x00, 0x00, 0x00, 0x14,
+   0x6d, 0x65, 0x74, 0x61, 0x00, 0x00, 0x00, 0x00, 0x00, 0x00, 0x00, 0x08, 0x69, 0x6c, 0x73, 0x74]
+
+/-- `size0_moov_counterexample`: `__update_parents` adds `delta` to the size field 0 of a `moov`
+that extends to the end of the file: the save finishes, and the `moov` now claims 12 bytes while
+it holds 48 — the strict walker rejects the result.  (Real code: same bytes; with a negative
+`delta` struct.error escapes after the file was modified.  Key `mp4:parent-size:size0-moov`.) -/
+theorem size0_moov_counterexample :
+    (walkFile size0Moov).isSome = true ∧
+    (saveRegion size0Moov (fun _ => twoMoofNew)).1 = none ∧
+    readAt (saveRegion size0Moov (fun _ => twoMoofNew)).2 12 8 = [0, 0, 0, 12, 0x6d, 0x6f, 0x6f, 0x76] ∧
+    (saveRegion size0Moov (fun _ => twoMoofNew)).2.length = 60 ∧
+    (walkFile (saveRegion size0Moov (fun _ => twoMoofNew)).2).isSome = false := by
+  decide +kernel
+
+/-- `moov(udta(meta(ilst, "xyz "(2 bytes), free(4 bytes))))  mdat "AAAA"` — `ilst` is the FIRST
+child of `meta`, a foreign atom follows, a `free` atom is the last child — 70 bytes -/
+def ilstFirst : Bytes :=
+  [0x00, 0x00, 0x00, 0x3a, 0x6d, 0x6f, 0x6f, 0x76, 0x00, 0x00, 0x00, 0x32, 0x75, 0x64, 0x74, 0x61,
+   0x00, 0x00, 0x00, 0x2a, 0x6d, 0x65, 0x74, 0x61, 0x00, 0x00, 0x00, 0x00, 0x00, 0x00, 0x00, 0x08,
+   0x69, 0x6c, 0x73, 0x74, 0x00, 0x00, 0x00, 0x0a, 0x78, 0x79, 0x7a, 0x20, 0x58, 0x59, 0x00, 0x00,
+   0x00, 0x0c, 0x66, 0x72, 0x65, 0x65, 0x00, 0x00, 0x00, 0x00, 0x00, 0x00, 0x00, 0x0c, 0x6d, 0x64,
+   0x61, 0x74, 0x41, 0x41, 0x41, 0x41]
+
+/-- `ilst_first_counterexample`: `_find_padding` looks at `meta.children[index - 1]` with
+`index = 0`, which in Python is the LAST child: the non-adjacent `free` atom (at 46, 12 bytes) is
+taken for padding, the replaced region becomes `[28, 48)` = `ilst` + the foreign atom "xyz " + the
+first two bytes of the `free` atom, and after the save (even one that keeps the length: 20 bytes
+for 20) the foreign atom is gone and the strict walker rejects `meta`'s children.
+(Key `mp4:parent-size:ilst-first-free-last`.) -/
+theorem ilst_first_counterexample :
+    (walkFile ilstFirst).isSome = true ∧
+    ((parse ilstFirst).toOption.bind regionOf).map (fun R => (R.offset, R.length)) = some (28, 20) ∧
+    (saveRegion ilstFirst (fun _ => twoMoofNew)).1 = none ∧
+    (saveRegion ilstFirst (fun _ => twoMoofNew)).2.length = 70 ∧
+    (walkFile (saveRegion ilstFirst (fun _ => twoMoofNew)).2).isSome = false := by
+  decide +kernel
+
 /-! ### the hypotheses of `chunk_offsets_follow_partial` are satisfiable -/
 
 /-- the witness cut after the first fragment (88 bytes): one `moov`, one `moof` -/
